@@ -122,6 +122,9 @@ pub(crate) struct TranslatorState {
     // with the file and line where the function was first asked for
     funcs_to_generate: Vec<(FuncDesc, u32, usize)>,
     loop_stack: Vec<EnclosingLoop>,
+    // how many values the expressions being translated have on the operand stack at this point
+    // (operands evaluated so far whose operation is not finished), see translate_expr
+    pending_operands: usize,
     return_stack: Vec<u32>,
     // counts that do not fit the operand that has to hold them
     limit_errors: Vec<String>,
@@ -135,6 +138,8 @@ pub(crate) struct TranslatorState {
 struct EnclosingLoop {
     start_label: String,
     end_label: String,
+    // TranslatorState::pending_operands where the loop body starts
+    pending_operands: usize,
 }
 
 #[derive(Default)]
@@ -686,6 +691,25 @@ impl Translator {
         mono: &MonomorphEnv,
         st: &mut TranslatorState,
     ) {
+        // Keep count of the operands waiting on the stack: whatever the parts of this expression
+        // pushed has been consumed when it is done, and its own value, if any, is now waiting for
+        // the enclosing expression. `break`/`continue` drop what was pushed since the loop began.
+        let pending_operands = st.pending_operands;
+        self.translate_expr_inner(expr, offset_table, mono, st);
+        let yields_value = !matches!(
+            self.get_ty(mono, expr.node()),
+            None | Some(SolvedType::Void | SolvedType::Never)
+        );
+        st.pending_operands = pending_operands + yields_value as usize;
+    }
+
+    fn translate_expr_inner(
+        &self,
+        expr: &Rc<Expr>,
+        offset_table: &OffsetTable,
+        mono: &MonomorphEnv,
+        st: &mut TranslatorState,
+    ) {
         self.update_current_file_and_lineno(st, expr.node());
 
         match &*expr.kind {
@@ -729,6 +753,7 @@ impl Translator {
                         let short_circuit = make_label("short_circuit_or");
                         let end_label = make_label("end_or");
                         self.emit(st, Instr::JumpIf(short_circuit.clone()));
+                        st.pending_operands -= 1;
                         self.translate_expr(right, offset_table, mono, st);
                         self.emit(st, Instr::Jump(end_label.clone()));
                         self.emit(st, short_circuit);
@@ -740,6 +765,7 @@ impl Translator {
                         let short_circuit = make_label("short_circuit_and");
                         let end_label = make_label("end_and");
                         self.emit(st, Instr::JumpIfFalse(short_circuit.clone()));
+                        st.pending_operands -= 1;
                         self.translate_expr(right, offset_table, mono, st);
                         self.emit(st, Instr::Jump(end_label.clone()));
                         self.emit(st, short_circuit);
@@ -938,6 +964,7 @@ impl Translator {
                         SolvedType::Int => {
                             // TODO: does this get optimized?
                             self.emit(st, Instr::PushInt(0));
+                            st.pending_operands += 1;
                             self.translate_expr(right, offset_table, mono, st);
                             self.emit(st, Instr::SubInt(Reg::Top, Reg::Top, Reg::Top))
                         }
@@ -945,6 +972,7 @@ impl Translator {
                             // subtract from -0.0, not 0.0: `0.0 - x` is +0.0 for x = +0.0, while
                             // `-0.0 - x` is the IEEE negation of every x (zeros included)
                             self.emit(st, Instr::PushFloat("-0.0".into()));
+                            st.pending_operands += 1;
                             self.translate_expr(right, offset_table, mono, st);
                             self.emit(st, Instr::SubFloat(Reg::Top, Reg::Top, Reg::Top))
                         }
@@ -1080,6 +1108,7 @@ impl Translator {
                 let else_label = make_label("else");
                 let end_label = make_label("endif");
                 self.emit(st, Instr::JumpIfFalse(else_label.clone()));
+                st.pending_operands -= 1;
                 // without an `else` the `if` is void: the value of its block, if any, is dropped
                 let yields_block_value = else_block.is_some();
                 self.translate_stmt(then_block, yields_block_value, offset_table, mono, st);
@@ -1130,6 +1159,7 @@ impl Translator {
                 // ConstructArray counts its elements with 16 bits: a longer literal is built from
                 // that many elements and the remaining ones are pushed onto it, in order
                 let (first, rest) = exprs.split_at(exprs.len().min(MAX_COUNT));
+                let pending_operands = st.pending_operands;
                 for expr in first {
                     self.translate_expr(expr, offset_table, mono, st);
                 }
@@ -1139,6 +1169,8 @@ impl Translator {
                 self.emit(st, Instr::ConstructArray(first.len() as u16));
                 for expr in rest {
                     self.emit(st, Instr::Duplicate);
+                    // the array and its duplicate
+                    st.pending_operands = pending_operands + 2;
                     self.translate_expr(expr, offset_table, mono, st);
                     if elems_are_void {
                         self.emit(st, Instr::PushNil(1));
@@ -1180,7 +1212,10 @@ impl Translator {
             ExprKind::Match(expr, arms) => {
                 let ty = self.get_ty(mono, expr.node()).unwrap();
 
+                let pending_operands = st.pending_operands;
                 self.translate_expr(expr, offset_table, mono, st);
+                // every arm starts by binding or dropping the scrutinee
+                st.pending_operands = pending_operands;
                 let end_label = make_label("endmatch");
                 // // Check scrutinee against each arm's pattern
                 // let arm_labels = arms
@@ -2482,6 +2517,20 @@ impl Translator {
         mono: &MonomorphEnv,
         st: &mut TranslatorState,
     ) {
+        // a statement leaves nothing behind (the value of a block is counted by the block)
+        let pending_operands = st.pending_operands;
+        self.translate_stmt_inner(stmt, is_last_in_block_expression, offset_table, mono, st);
+        st.pending_operands = pending_operands;
+    }
+
+    fn translate_stmt_inner(
+        &self,
+        stmt: &Rc<Stmt>,
+        is_last_in_block_expression: bool,
+        offset_table: &OffsetTable,
+        mono: &MonomorphEnv,
+        st: &mut TranslatorState,
+    ) {
         self.update_current_file_and_lineno(st, stmt.node());
         match &*stmt.kind {
             StmtKind::Let(_, pat, expr) => {
@@ -2653,6 +2702,7 @@ impl Translator {
                                 let idx = offset_table.get(&node.id()).unwrap();
                                 // load x
                                 self.emit(st, Instr::LoadOffset(*idx));
+                                st.pending_operands += 1;
                                 // add number
                                 self.translate_expr(rvalue, offset_table, mono, st);
                                 perform_op(st);
@@ -2698,6 +2748,8 @@ impl Translator {
                                         self.emit(st, Instr::LoadOffset(array_tmp));
                                         self.emit(st, Instr::LoadOffset(index_tmp));
                                         self.emit(st, Instr::GetIndex(Reg::Top, Reg::Top));
+                                        // array, index and element wait for the new value
+                                        st.pending_operands += 1;
                                         self.translate_expr(rvalue, offset_table, mono, st);
                                         perform_op(st);
                                         // store in array at index
@@ -2741,6 +2793,8 @@ impl Translator {
                                             0,
                                             &fn_index_get_ty,
                                         );
+                                        // array, index and element wait for the new value
+                                        st.pending_operands += 1;
                                         self.translate_expr(rvalue, offset_table, mono, st);
                                         perform_op(st);
                                         // interface method Index::index_set()
@@ -2768,13 +2822,17 @@ impl Translator {
                     self.emit(st, Instr::Pop);
                 }
             }
-            StmtKind::Break => {
+            StmtKind::Break | StmtKind::Continue => {
                 let enclosing_loop = st.loop_stack.last().unwrap();
-                self.emit(st, Instr::Jump(enclosing_loop.end_label.clone()));
-            }
-            StmtKind::Continue => {
-                let enclosing_loop = st.loop_stack.last().unwrap();
-                self.emit(st, Instr::Jump(enclosing_loop.start_label.clone()));
+                let target = match &*stmt.kind {
+                    StmtKind::Break => enclosing_loop.end_label.clone(),
+                    _ => enclosing_loop.start_label.clone(),
+                };
+                // inside an expression: drop the operands pushed since the loop body began
+                for _ in enclosing_loop.pending_operands..st.pending_operands {
+                    self.emit(st, Instr::Pop);
+                }
+                self.emit(st, Instr::Jump(target));
             }
             StmtKind::Return(expr) => {
                 if st.return_stack.is_empty() {
@@ -2803,9 +2861,11 @@ impl Translator {
                 self.emit(st, Line::Label(start_label.clone()));
                 self.translate_expr(cond, offset_table, mono, st);
                 self.emit(st, Instr::JumpIfFalse(end_label.clone()));
+                st.pending_operands -= 1;
                 st.loop_stack.push(EnclosingLoop {
                     start_label: start_label.clone(),
                     end_label: end_label.clone(),
+                    pending_operands: st.pending_operands,
                 });
                 for statement in statements.iter() {
                     self.translate_stmt(statement, false, offset_table, mono, st);
@@ -2857,6 +2917,8 @@ impl Translator {
                 st.loop_stack.push(EnclosingLoop {
                     start_label: start_label.clone(),
                     end_label: end_label_break.clone(),
+                    // the iterator is the loop's own and stays until `for_end_break`
+                    pending_operands: st.pending_operands,
                 });
                 for statement in statements.iter() {
                     self.translate_stmt(statement, false, offset_table, mono, st);
